@@ -161,6 +161,9 @@ func getInt(context *api.Context, id b6.Identifiable, key string) (int, error) {
 	if feature := api.Resolve(id, context.World); feature != nil {
 		return strconv.Atoi(feature.Get(key).Value.String())
 	}
+	if err := requireIdentifiable("get-int", id); err != nil {
+		return 0, err
+	}
 	return 0, fmt.Errorf("could not find feature with %s id", id.FeatureID().String())
 }
 
